@@ -543,6 +543,24 @@ pub fn pyverify(prop: &str, scen_path: &str, res_path: &str, tier: Tier, seed: u
     }
     ctx.merge(b);
     ctx.note(&format!("python stderr bytes: {}", resd["stderr_bytes"]));
+    let mut valgrind = json!(null);
+    if prop == "C20" {
+        if let Ok(path) = std::env::var("VERIF_VALGRIND_SUMMARY") {
+            match std::fs::read_to_string(&path).ok().and_then(|t| serde_json::from_str::<Value>(&t).ok()) {
+                None => ctx.inconclusive(format!("valgrind summary {path} missing")),
+                Some(v) => {
+                    for rep in v["reports_with_extension_frames"].as_array().cloned().unwrap_or_default() {
+                        ctx.violate("memcheck-error-in-extension", crate::util::trunc(rep.as_str().unwrap_or(""), 900), json!({"kind":"valgrind","report":rep}));
+                    }
+                    if v["completed"] != json!(true) {
+                        ctx.inconclusive("valgrind run did not complete".to_string());
+                    }
+                    ctx.count("scenarios_under_memcheck", v["scenario_ids"].as_str().map(|s| s.split(',').count() as u64).unwrap_or(0));
+                    valgrind = v;
+                }
+            }
+        }
+    }
     if prop == "C19" {
         for p in ALL_PLANNERS {
             if p != PKind::Prm {
@@ -570,7 +588,7 @@ pub fn pyverify(prop: &str, scen_path: &str, res_path: &str, tier: Tier, seed: u
         ctx.finish(
             "cases = groups of Python planner runs on the same seeded scenario that differ only in how a callback fails (raise / return None / return a str, int or list) on a fault region or at its k-th call (k < 10), compared with the run whose callback returns False in exactly those situations (bitwise path or error kind), with the core run on world + fault region, and checked for 'no path state inside the fault region'; distinct+non-trivial = distinct (group, fault kind) pairs in which the injected fault actually fired",
             &["PRM (wall-clock build time) and timed-out runs are only checked for 'no state in the fault region'", "the JavaScript binding cannot be executed in this image (no wasm32 target / wasm-bindgen): the claim covers the Python binding only", "stderr carries pyo3's printed tracebacks; its size is recorded, not judged"],
-            json!({"python_stderr_bytes": resd["stderr_bytes"]}),
+            json!({"python_stderr_bytes": resd["stderr_bytes"], "valgrind_memcheck": valgrind}),
         )
     }
 }
